@@ -1,17 +1,21 @@
 """C16 -- PyTorch payload insertion changes only the model pickle and keeps the model.
 
-Only the archive-level clauses are decided (running the payload / equality of the reconstructed model need
-torch at run time).  `PyTorchModelWrapper.inject_payload`'s insertion arm is interpreted over an abstract
-archive (opaque member records; reads, writes and the injection call are recorded, nothing is performed):
+`PyTorchModelWrapper` is interpreted (sa.objeval) over an abstract file system by sa.torchworlds; what the emitted model
+pickle does is read off CPython's unpickler on inert stand-ins.  That real tensors compare equal under torch is not decided.
 
-* C16.rewrite-loop    every member of the input archive is written exactly once to the output, in archive order,
-                      under the same name; its data is the member's own bytes verbatim, except the model pickle,
-                      which is the re-serialised parsed pickle (empty members and look-alike names included).
-* C16.same-member     the member that is replaced is selected by the same predicate as the member that was parsed.
-* C16.one-injection   exactly one injection helper call, with the payload, on the parsed pickle, before it is written.
-* C16.input-read-only without overwrite the input path is only opened for reading; with overwrite the only write is
-                      the rename of the output onto it, after which no stray output remains.
+* C16.archive-worlds  after every injection of every call sequence (one or two wrappers for the same path, overwrite on/off,
+                      reads of `.pickled` in between): same member names in the same order; every other member
+                      byte-identical (empty members, look-alike names, several orders and directory names); loading the
+                      model pickle makes the calls of the input's model pickle plus exactly one exec(payload) and returns an
+                      equal value; without overwrite the input is untouched, with overwrite it holds the injected archive
+                      and no output remains; no other path appears.  "Input" is the file as it is when the call is made.
+* C16.same-member     the member that is replaced is selected by the same predicate as the member `.pickled` parses.
 * C16.fresh-parse     the parsed pickle is obtained per wrapper from the input archive (no process-wide cache).
+* C16.payload-encodable  a text payload the injector accepts also serialises.
+
+(The rules C16.rewrite-loop / C16.one-injection / C16.input-read-only of earlier rounds interpreted the insertion arm over
+opaque member records with sa.minieval; the archive worlds decide the same clauses on what the emitted archive *is*, for
+sequences of calls as well, so those rules were retired rather than kept as a second, cruder verdict.)
 """
 
 from __future__ import annotations
@@ -25,188 +29,26 @@ from ..report import AnalysisError, Report
 from ..util import body_walk, src
 
 W = "fickling.pytorch.PyTorchModelWrapper"
-INJECTORS = {"insert_python_exec", "insert_python", "insert_python_eval", "append_python", "insert_function_call_on_unpickled_object"}
-MEMBERS = [("archive/data.pkl", b"<model pickle>"), ("archive/byteorder", b"little"), ("archive/data/0", b"\x00\x01"), ("archive/data/1", b""), ("archive/xdata.pkl", b"look-alike"), ("archive/version", b"3\n"), ("archive/.data/serialization_id", b"0123")]
-
-
-def interpret(repo: Repo, overwrite: bool, IN: str = "INPUT.pt", OUT: str = "OUTPUT.pt"):
-    c = repo.cls(W)
-    f = c.method("inject_payload")
-    if f is None:
-        raise AnalysisError("PyTorchModelWrapper.inject_payload not found")
-    log: List[tuple] = []
-    pick = Record("Pickled", {})
-    for inj in INJECTORS:
-        pick.fields["()" + inj] = lambda *a, _i=inj, **k: log.append(("inject", _i, a, tuple(sorted(k.items())))) or None
-    pick.fields["()dumps"] = lambda: ("INJECTED-PICKLE", len([x for x in log if x[0] == "inject"]))
-
-    def make_zip(path, mode="r"):
-        z = Record("ZipFile", {"path": path, "mode": mode})
-        log.append(("zip-open", str(path), mode))
-        items = []
-        for name, data in MEMBERS:
-            it = Record("ZipInfo", {"filename": name, "orig_filename": name, "file_size": len(data), "compress_size": len(data), "compress_type": 0, "external_attr": 0, "date_time": (1980, 1, 1, 0, 0, 0), "comment": b"", "extra": b"", "CRC": 0, "flag_bits": 0, "header_offset": 0})
-            it.fields["()is_dir"] = lambda _n=name: _n.endswith("/")
-            items.append(it)
-        z.fields["()infolist"] = lambda: list(items)
-        z.fields["()namelist"] = lambda: [n for n, _ in MEMBERS]
-
-        def zopen(name, mode="r"):
-            nm = name.fields["filename"] if isinstance(name, Record) else name
-            data = dict(MEMBERS).get(nm)
-            if data is None:
-                raise PyRaise("KeyError")
-            e = Record("ZipExtFile", {"name": nm})
-            e.fields["()read"] = lambda *a, _nm=nm, _d=data: (log.append(("read", _nm)) or _d)
-            return e
-
-        z.fields["()open"] = zopen
-        z.fields["()read"] = lambda name: (log.append(("read", name if isinstance(name, str) else name.fields["filename"])) or dict(MEMBERS)[name if isinstance(name, str) else name.fields["filename"]])
-        z.fields["()writestr"] = lambda name, data, *a, **k: log.append(("write", name.fields["filename"] if isinstance(name, Record) else name, data, str(path))) or None
-        z.fields["()write"] = lambda *a, **k: log.append(("write-file", a)) or None
-        return z
-
-    selfr = Record("Wrapper", {"path": IN, "formats": ["PyTorch v1.3"], "pickled": pick, "_pickled": pick, "force": False})
-
-    def make_path(p):
-        import posixpath
-
-        r = Record("Path", {"p": str(p), "__str__": str(p), "name": posixpath.basename(str(p)), "stem": posixpath.splitext(posixpath.basename(str(p)))[0], "suffix": posixpath.splitext(str(p))[1]})
-        r.fields["()with_name"] = lambda nm, _p=str(p): make_path(posixpath.join(posixpath.dirname(_p), nm))
-        r.fields["()with_suffix"] = lambda sx, _p=str(p): make_path(posixpath.splitext(_p)[0] + sx)
-        r.fields["()resolve"] = lambda *a, _r=r, **k: _r
-        r.fields["()absolute"] = lambda *a, _r=r, **k: _r
-        r.fields["()is_file"] = lambda _p=str(p): True
-        r.fields["()rename"] = lambda dst: log.append(("rename", str(p), str(dst) if not isinstance(dst, Record) else dst.fields["p"])) or None
-        r.fields["()exists"] = lambda: not any(x[0] == "rename" and x[1] == str(p) for x in log)
-        r.fields["()unlink"] = lambda *a, **k: log.append(("remove", str(p))) or None
-        return r
-
-    def hook(name, args, kw, ev):
-        last = name.split(".")[-1]
-        if name in ("zipfile.ZipFile", "ZipFile"):
-            return make_zip(*args, **kw)
-        if name == "Path":
-            a0 = args[0]
-            return make_path(a0.fields["p"] if isinstance(a0, Record) else a0)
-        if name in ("warnings.warn",):
-            return None
-        if name in ("os.remove", "os.unlink"):
-            log.append(("remove", str(args[0].fields["p"] if isinstance(args[0], Record) else args[0])))
-            return None
-        if name in ("shutil.move", "os.rename", "os.replace", "shutil.copy", "shutil.copyfile"):
-            log.append((last, str(args[0]), str(args[1])))
-            return None
-        if name in ("torch.save", "BaseInjection"):
-            log.append(("torch", name))
-            return Record("obj", {})
-        if name == "open":
-            log.append(("open", str(args[0]), args[1] if len(args) > 1 else kw.get("mode", "r")))
-            return Record("file", {})
-        return _MISSING
-
-    env = {"self": selfr, "payload": "PAYLOAD", "output_path": OUT, "injection": "insertion", "overwrite": overwrite}
-    ev = Evaluator(env, call_hook=hook)
-    try:
-        ev.run_body(f.node.body)
-    except Unsupported as e:
-        raise AnalysisError(f"inject_payload: cannot interpret over the abstract archive: {e}")
-    except PyRaise as pe:
-        log.append(("raised", pe.name))
-    return f, log
 
 
 def run(rep: Report, tier: str):
     repo = load_repo()
     rep.explanation = (
-        "The insertion arm of PyTorchModelWrapper.inject_payload is interpreted over an abstract zip archive (seven members "
-        "incl. an empty one and a look-alike `xdata.pkl`): every open/read/writestr/rename/remove and the injection call are "
-        "recorded and compared with the required copy discipline, for both overwrite settings; plus structural rules for the "
-        "member predicate and the per-wrapper parse. That the payload runs once and the model is equal needs torch at run time "
-        "and is not decided."
+        "PyTorchModelWrapper is interpreted over an abstract file system (sa.torchworlds): model archives with an empty member, "
+        "a look-alike `xdata.pkl`, several member orders and directory names, real model-shaped pickles, one or two wrappers for "
+        "the same path and sequences of inject_payload(insertion, overwrite on/off) and reads of `.pickled`. After every call "
+        "the emitted archive is compared with the input as it was at that call: member names and order, other members' bytes, "
+        "what loading the model pickle does on inert stand-ins (calls of the input's model pickle plus exactly one exec(payload), "
+        "equal value), and where the archives are afterwards. Plus structural rules for the member predicate, the per-wrapper "
+        "parse and the payload's encodability. That real tensors compare equal under torch is not decided (stand-ins only)."
     )
-    rep.rule("C16.rewrite-loop", "every member once, in order, same name, verbatim bytes except the model pickle", 2)
     rep.rule("C16.same-member", "the replaced member is selected like the parsed member", 1)
-    rep.rule("C16.one-injection", "exactly one injection call with the payload, before the pickle is written", 2)
-    rep.rule("C16.input-read-only", "input only read; overwrite = rename output onto input, no stray output", 2)
     rep.rule("C16.fresh-parse", "the parsed pickle comes from this wrapper's archive, not from a process-wide cache", 1)
     rep.rule("C16.payload-encodable", "a text payload the injector accepts also serialises (no failure from dumps() once the output archive is open)", 10)
+    rep.rule("C16.archive-worlds", "after every injection of every sequence: same members in order, others byte-identical, model pickle = the input's plus one exec(payload) with an equal value, input untouched / replaced as asked, no stray path", 1)
     from .c15 import check_accepted_is_encodable
 
     check_accepted_is_encodable(load_repo(), rep, "C16.payload-encodable", tier)
-    global MEMBERS
-    orders = [list(MEMBERS)]
-    if tier == "thorough":
-        import itertools
-        base = list(MEMBERS)
-        orders += [base[1:] + base[:1], base[::-1], base[3:] + base[:3], [base[1], base[0]] + base[2:], base + [("archive/extra/data.pkl.bak", b"bak")]]
-    all_orders = orders
-    for order_i, order in enumerate(all_orders):
-      MEMBERS = order
-      names = [n for n, _ in MEMBERS]
-      for overwrite, IN, OUT in [(False, "INPUT.pt", "OUTPUT.pt"), (True, "INPUT.pt", "OUTPUT.pt")] + ([(False, "models/model.pt", "scratch/model.pt"), (True, "models/model.pt", "scratch/model.pt")] if order_i == 0 else []):
-          f, log = interpret(repo, overwrite, IN, OUT)
-          q, file = f.qualname, f.file
-          tag = f"overwrite={overwrite}" + (f",order#{order_i}" if order_i else "") + (",same-name-other-directory" if IN != "INPUT.pt" else "")
-          writes = [x for x in log if x[0] == "write"]
-          injects = [x for x in log if x[0] == "inject"]
-          raised = [x for x in log if x[0] == "raised"]
-          if raised:
-              rep.bad("C16.rewrite-loop", q, f"raises:{raised[0][1]}", f"[{tag}] the insertion arm raises {raised[0][1]} on an ordinary archive", file, f.line)
-              continue
-          problems = []
-          wn = [w[1] for w in writes]
-          if wn != names:
-              missing = [n for n in names if n not in wn]
-              dup = sorted({n for n in wn if wn.count(n) > 1})
-              extra = [n for n in wn if n not in names]
-              problems.append(f"members written {wn} vs archive {names}" + (f"; missing {missing}" if missing else "") + (f"; written twice {dup}" if dup else "") + (f"; renamed/new {extra}" if extra else ""))
-          for w in writes:
-              nm, data = w[1], w[2]
-              orig = dict(MEMBERS).get(nm)
-              if nm.endswith("/data.pkl") and nm == "archive/data.pkl":
-                  if not (isinstance(data, tuple) and data[0] == "INJECTED-PICKLE"):
-                      problems.append(f"the model pickle member is written as {data!r}, not as the re-serialised injected pickle")
-                  elif data[1] != 1:
-                      problems.append(f"the model pickle was serialised after {data[1]} injection call(s)")
-              elif data != orig:
-                  problems.append(f"member {nm} is written as {data!r} instead of its own bytes {orig!r}")
-          outs = {w[3] for w in writes}
-          if outs - {OUT}:
-              problems.append(f"members are written into {sorted(outs)}")
-          if problems:
-              rep.bad("C16.rewrite-loop", q, f"copy-discipline:{tag}", f"[{tag}] " + "; ".join(problems[:3]), file, f.line)
-          else:
-              rep.ok("C16.rewrite-loop", q, f"[{tag}] {len(writes)} members written once each, in order, verbatim except archive/data.pkl", f"{file}:{f.line}")
-          # one injection, with the payload, before the first write of the model pickle
-          if len(injects) == 1 and injects[0][2][:1] == ("PAYLOAD",):
-              i_inj = log.index(injects[0])
-              first_w = min((log.index(w) for w in writes), default=10**9)
-              if i_inj < first_w:
-                  rep.ok("C16.one-injection", q, f"[{tag}] one {injects[0][1]}(payload) before anything is written", f"{file}:{f.line}")
-              else:
-                  rep.bad("C16.one-injection", q, f"inject-after-write:{tag}", f"[{tag}] the injection happens after members were already written", file, f.line)
-          else:
-              rep.bad("C16.one-injection", q, f"injection-count:{len(injects)}", f"[{tag}] {len(injects)} injection call(s) {[(x[1], x[2]) for x in injects]}; exactly one with the payload is required", file, f.line)
-          # input path discipline
-          zin = [x for x in log if x[0] == "zip-open" and x[1] == IN]
-          bad_modes = [x for x in zin if x[2] != "r"] + [x for x in log if x[0] == "open" and x[1] == IN and any(c in str(x[2]) for c in "wax+")]
-          renames = [x for x in log if x[0] in ("rename", "move", "replace", "copy", "copyfile")]
-          removes = [x for x in log if x[0] == "remove"]
-          if bad_modes:
-              rep.bad("C16.input-read-only", q, f"input-opened-for-write:{tag}", f"[{tag}] the input archive is opened with mode {bad_modes[0][2]!r}", file, f.line)
-          elif not overwrite:
-              if renames or removes or any(w[3] == IN for w in writes):
-                  rep.bad("C16.input-read-only", q, "input-touched-without-overwrite", f"[{tag}] the input (or output) is renamed/removed/written although overwrite was not requested: {renames + removes}", file, f.line)
-              else:
-                  rep.ok("C16.input-read-only", q, f"[{tag}] input opened read-only {len(zin)} time(s); nothing renamed or removed", f"{file}:{f.line}")
-          else:
-              ok = len(renames) == 1 and renames[0][1] == OUT and renames[0][2] == IN and not any(r[1] == IN for r in removes)
-              if ok:
-                  rep.ok("C16.input-read-only", q, f"[{tag}] output renamed onto the input; no stray output left (removes: {removes})", f"{file}:{f.line}")
-              else:
-                  rep.bad("C16.input-read-only", q, "overwrite-discipline", f"[{tag}] with overwrite the file operations are {renames + removes}; expected exactly `rename OUTPUT -> INPUT` and no removal of the input", file, f.line)
-    MEMBERS = all_orders[0]
     # ---- same-member predicate
     c = repo.cls(W)
     getter = c.method("pickled", "property")
@@ -241,3 +83,13 @@ def run(rep: Report, tier: str):
     else:
         why = f"memoised helper {cached[0].qualname}" if cached else "the getter does not parse the member of self.path itself"
         rep.bad("C16.fresh-parse", getter.qualname, "shared-parse", f"the parsed model pickle is not obtained per wrapper from the input archive ({why}): a Pickled object shared between wrappers is mutated by each injection, so a second injection into the same file carries both payloads", getter.file, getter.line)
+
+    # ---- archive worlds (interpretive; last, so that the structural findings above stand if interpretation ends undecided)
+    from .. import torchworlds
+
+    inj = c.method("inject_payload")
+    found, n = torchworlds.explore(repo, tier)
+    for key, (cnt, msg) in sorted(found.items()):
+        rep.bad("C16.archive-worlds", inj.qualname, key, f"{msg} [{cnt} world(s)]", inj.file, inj.line)
+    if not found:
+        rep.ok("C16.archive-worlds", inj.qualname, f"{n} worlds (archives x wrappers x call sequences): every clause holds after every injection", f"{inj.file}:{inj.line}")
